@@ -724,7 +724,7 @@ impl<K: KeyT, V: ValT> World<K, V> {
                         }
                         if *clone_at == Some(got.len() as u32) && side.is_none() {
                             side = Some((sut(|| it.clone()), got.len()));
-                            let _ = sut(|| format!("{:?}", it));
+                            sut(|| debug_to_sink(&it));
                         }
                         match sut(|| it.next()) {
                             Some(k) => {
@@ -893,11 +893,26 @@ impl<K: KeyT, V: ValT> World<K, V> {
             Elems(Vec<u32>),
             Bool(bool),
         }
+        // the lazy algebra iterators are Clone + Debug: a clone taken after one step must yield
+        // exactly the rest, and formatting must not consume anything
+        fn with_clone<'x, K: KeyT + 'x, I: Iterator<Item = &'x K> + Clone + std::fmt::Debug>(mut it: I, collect: &dyn Fn(&mut dyn Iterator<Item = &'x K>) -> Vec<u32>) -> Vec<u32> {
+            let first = sut(|| it.next());
+            sut(|| debug_to_sink(&it));
+            let mut c = sut(|| it.clone());
+            let mut a: Vec<u32> = first.iter().map(|k| k.kv()).collect();
+            let rest = collect(&mut it);
+            let rest2 = collect(&mut c);
+            if rest != rest2 {
+                a.push(u32::MAX - 1);
+            }
+            a.extend(rest);
+            a
+        }
         let co = call(|| match alg {
-            SetAlg::Union => Res::Elems(collect(&mut sut(|| sa.s.union(&sb.s)))),
-            SetAlg::Intersection => Res::Elems(collect(&mut sut(|| sa.s.intersection(&sb.s)))),
-            SetAlg::Difference => Res::Elems(collect(&mut sut(|| sa.s.difference(&sb.s)))),
-            SetAlg::SymmetricDifference => Res::Elems(collect(&mut sut(|| sa.s.symmetric_difference(&sb.s)))),
+            SetAlg::Union => Res::Elems(with_clone(sut(|| sa.s.union(&sb.s)), &collect)),
+            SetAlg::Intersection => Res::Elems(with_clone(sut(|| sa.s.intersection(&sb.s)), &collect)),
+            SetAlg::Difference => Res::Elems(with_clone(sut(|| sa.s.difference(&sb.s)), &collect)),
+            SetAlg::SymmetricDifference => Res::Elems(with_clone(sut(|| sa.s.symmetric_difference(&sb.s)), &collect)),
             SetAlg::BitOr => Res::Elems(owned(sut(|| &sa.s | &sb.s))),
             SetAlg::BitAnd => Res::Elems(owned(sut(|| &sa.s & &sb.s))),
             SetAlg::BitXor => Res::Elems(owned(sut(|| &sa.s ^ &sb.s))),
